@@ -11,7 +11,7 @@ import z3
 from . import lexcheck
 from .exec import Agg, BF, Cell, EngineError, Exec, Panic, Ref, SrcPtr, SrcSlice, ConstBytes, Violation, is_sym
 
-RX_USER_CB = re.compile(r'^corpus::\w+::(cb_\w+|\{closure|Tok::\{closure)|^<corpus::\w+::Tok as logos::Logos<.*>>::lex::_(get_action|make_error)::\{closure')
+RX_USER_CB = re.compile(r'^corpus::\w+::(?:\w+::)*(cb_\w+|\{closure|Tok::\{closure)|^<corpus::\w+::Tok as logos::Logos<.*>>::lex::_(get_action|make_error)::\{closure')
 
 
 def canon(v):
@@ -72,7 +72,7 @@ def cb_name(n):
 
 
 def install(ex):
-    lexcheck.install_hooks(ex, callback_rx=re.compile(r'^corpus::\w+::cb_\w+|^<corpus::\w+::Tok as logos::Logos<[^>]*>>::lex::_get_action::\{closure|^<corpus::\w+::Tok as logos::Logos<[^>]*>>::lex::_make_error::\{closure'))
+    lexcheck.install_hooks(ex, callback_rx=re.compile(r'^corpus::\w+::(?:\w+::)*cb_\w+|^<corpus::\w+::Tok as logos::Logos<[^>]*>>::lex::_get_action::\{closure|^<corpus::\w+::Tok as logos::Logos<[^>]*>>::lex::_make_error::\{closure'))
 
 
 def explore_pair(progA, progB, d, N, start, *, partial=False, budget=None, release=False):
